@@ -7,7 +7,7 @@
  *       builds a request_st on a real (srv, con) skeleton as connection_init()/request_acquire()
  *       do, applies the field writes of <spec>... through the real setters, runs <op>, prints
  *       every scalar / buffer / list field of the request_st in canonical form.
- *         op = none | reset | ex | resetex | respreset | bodyclear0 | bodyclear1 | conreset |
+ *         op = none | reset | ex | resetex | respreset | bodyclear0 | bodyclear1 | conreset | kaend |
  *              release (request_release + request_acquire: pooled object) |
  *              h2init  (request_release, then h2_init_stream(): recycled stream object that
  *                       inherits config state from the connection request h2r)
@@ -53,8 +53,10 @@ static handler_t fake_request_reset(request_st *r, void *p_d) {
     r->plugin_ctx[p->id] = NULL;                       /* like mod_setenv / mod_rewrite */
     return HANDLER_GO_ON;
 }
-static plugin fake_plugins[2];
-static plugin *fake_plugin_ptrs[2];
+static plugin fake_plugins[3];
+static plugin *fake_plugin_ptrs[3];
+static sock_addr harness_addr;
+static buffer harness_addr_buf;
 
 /* ------------------------------------------------------------------ skeleton */
 static server srv_s;
@@ -71,18 +73,21 @@ static void skeleton_init(void) {
     srv->config_context = array_init(NCTX);
     for (int i = 0; i < NCTX; ++i) array_insert_value(srv->config_context, "x", 1);
     srv->config_captures = 2;
-    for (int i = 0; i < 2; ++i) {
+    for (int i = 0; i < 3; ++i) {
         plugin *p = &fake_plugins[i];
         memset(p, 0, sizeof(*p));
         p->version = LIGHTTPD_VERSION_ID;
-        p->name = i ? "fake1" : "fake0";
+        p->name = i == 0 ? "fake0" : i == 1 ? "fake1" : "fake2-nohook";
         p->init = fake_init;
         p->handle_uri_clean = fake_uri_clean;
-        p->handle_request_reset = fake_request_reset;
+        /* the third module keeps per-request state but registers NO handle_request_reset hook:
+         * request_reset() itself must not be assumed to clear plugin_ctx[] */
+        if (i < 2) p->handle_request_reset = fake_request_reset;
         fake_plugin_ptrs[i] = p;
     }
     srv->plugins.ptr = fake_plugin_ptrs;
-    srv->plugins.used = 2;
+    srv->plugins.used = 3;
+    buffer_copy_string_len(&harness_addr_buf, CONST_STR_LEN("10.9.8.7"));
     if (HANDLER_GO_ON != plugins_call_init(srv)) { fputs("plugins_call_init failed\n", stderr); exit(2); }
     memset(&defaults, 0, sizeof(defaults));
     buffer_copy_string_len(&defaults_docroot, CONST_STR_LEN("/docroot"));
@@ -293,6 +298,14 @@ static int apply_spec(request_st *r, connection *c, char *tok) {
     else if (0 == strcmp(k, "h2r.po")) h2r->conf.http_parseopts = (unsigned)atoi(v);
     else if (0 == strcmp(k, "h2r.civ")) h2r->conditional_is_valid = (uint32_t)strtoul(v, NULL, 10);
     else if (0 == strcmp(k, "h2r.cc")) setcc(h2r, v);
+    else if (0 == strcmp(k, "dst")) {   /* as mod_extforward does: a request-private remote address */
+        if (0 == atoi(v)) { r->dst_addr = &harness_addr; r->dst_addr_buf = &harness_addr_buf; }
+    }
+    else if (0 == strcmp(k, "cm") || 0 == strcmp(k, "h2r.cm")) {   /* a config regex matched with captures */
+        request_st * const t = (k[0] == 'h') ? h2r : r;
+        int i = atoi(v);
+        if (i >= 0 && i < srv_s.config_captures) { t->cond_match[i] = t->cond_match_data + i; t->cond_match_data[i].captures = 3; }
+    }
     else if (0 == strcmp(k, "h2r.sn")) { buffer_copy_string_len(&h2r->server_name_buf, CONST_STR_LEN("sni")); h2r->server_name = &h2r->server_name_buf; }
     else return -1;
     return 0;
@@ -339,7 +352,11 @@ static void dump(const request_st *r, const connection *c) {
            (int)r->http_method, (int)r->http_version, r->handler_module ? 1 : 0);
     printf(" pctx=");
     for (uint32_t i = 0; i <= srv->plugins.used; ++i) fputc(r->plugin_ctx[i] ? '1' : '0', stdout);
-    printf(" con=%d civ=%u cc=", r->con == c && r->dst_addr == &c->dst_addr && r->dst_addr_buf == &c->dst_addr_buf, r->conditional_is_valid);
+    printf(" con=%d dst=%d cm=", r->con == c, r->dst_addr == &c->dst_addr && r->dst_addr_buf == &c->dst_addr_buf);
+    for (int i = 0; i < srv->config_captures; ++i)
+        fputc(NULL == r->cond_match[i] ? 'n' : r->cond_match[i] == r->cond_match_data + i ? 'o'
+              : r->cond_match[i] == c->request.cond_match_data + i ? 'h' : 'x', stdout);
+    printf(" civ=%u cc=", r->conditional_is_valid);
     for (int i = 0; i < NCTX; ++i) printf("%s%d:%d", i ? "," : "", r->cond_cache[i].result, r->cond_cache[i].local_result);
     request_config dc = defaults;
     dc.http_parseopts = r->conf.http_parseopts;
@@ -366,7 +383,7 @@ static void dump(const request_st *r, const connection *c) {
            r->resp_header_repeated, r->loops_per_request, r->keep_alive, r->async_callback,
            r->tmp_buf == srv->tmp_buf, r->gw_dechunk ? 1 : 0, r->error_handler_saved_status);
     pcq("wq", &r->write_queue); pcq("rdq", &r->read_queue); pcq("bq", &r->reqbody_queue);
-    printf(" cap=%d ext=%d rc=%d%d", r->cond_captures, r->h2_connect_ext, fake_reset_calls[1], fake_reset_calls[2]);
+    printf(" cap=%d ext=%d rc=%d%d%d", r->cond_captures, r->h2_connect_ext, fake_reset_calls[1], fake_reset_calls[2], fake_reset_calls[3]);
 }
 
 /* parsed-request line in the format of h_request.c */
@@ -432,6 +449,18 @@ static request_st *run_op(const char *op, request_st *r, connection *c, int pool
     if (0 == strcmp(op, "bodyclear0")) { http_response_body_clear(r, 0); return r; }
     if (0 == strcmp(op, "bodyclear1")) { http_response_body_clear(r, 1); return r; }
     if (0 == strcmp(op, "conreset")) { if (pooled) return NULL; connection_reset(c); return r; }
+    if (0 == strcmp(op, "kaend")) {
+        /* connection_handle_response_end_state() on its keep-alive path (request completely read,
+         * response written): request_reset() + the accounting checkpoints for the next request */
+        if (pooled) return NULL;
+        r->http_version = HTTP_VERSION_1_1;
+        r->keep_alive = 1;
+        r->http_status = 0;                              /* (skip the request_done hooks) */
+        r->reqbody_length = r->reqbody_queue.bytes_in;
+        if (r->state == CON_STATE_ERROR) r->state = CON_STATE_WRITE;
+        connection_handle_response_end_state(r, c);
+        return r;
+    }
     if (0 == strcmp(op, "release")) {
         if (!pooled) return NULL;
         request_release(r);
